@@ -46,9 +46,9 @@ pub open spec fn tree_used(q: &Query, s: &Schema, ty: ISet<TypeId>, fr: ISet<Res
     else {
         match q.selections@[i] {
             Selection::Field(f) => ty.contains(sel_field_type(s, f))
-                && forall|k: int| 0 <= k < f.selection_set@.len() && i < (f.selection_set@[k].0 as int) < q.selections@.len() ==> #[trigger] tree_used(q, s, ty, fr, f.selection_set@[k].0 as int),
+                && forall|k: int| 0 <= k < f.selection_set@.len() && i < ((#[trigger] f.selection_set@[k]).0 as int) < q.selections@.len() ==> tree_used(q, s, ty, fr, f.selection_set@[k].0 as int),
             Selection::InlineFragment(f) => ty.contains(f.type_id)
-                && forall|k: int| 0 <= k < f.selection_set@.len() && i < (f.selection_set@[k].0 as int) < q.selections@.len() ==> #[trigger] tree_used(q, s, ty, fr, f.selection_set@[k].0 as int),
+                && forall|k: int| 0 <= k < f.selection_set@.len() && i < ((#[trigger] f.selection_set@[k]).0 as int) < q.selections@.len() ==> tree_used(q, s, ty, fr, f.selection_set@[k].0 as int),
             Selection::FragmentSpread(g) => fr.contains(g),
             Selection::Typename => true,
         }
@@ -73,13 +73,13 @@ pub proof fn lemma_tree_used_mono(q: &Query, s: &Schema, t1: ISet<TypeId>, f1: I
     if 0 <= i < q.selections@.len() {
         match q.selections@[i] {
             Selection::Field(f) => {
-                assert forall|k: int| 0 <= k < f.selection_set@.len() && i < (f.selection_set@[k].0 as int) < q.selections@.len() implies #[trigger] tree_used(q, s, t2, f2, f.selection_set@[k].0 as int) by {
+                assert forall|k: int| 0 <= k < f.selection_set@.len() && i < ((#[trigger] f.selection_set@[k]).0 as int) < q.selections@.len() implies tree_used(q, s, t2, f2, f.selection_set@[k].0 as int) by {
                     assert(tree_used(q, s, t1, f1, f.selection_set@[k].0 as int));
                     lemma_tree_used_mono(q, s, t1, f1, t2, f2, f.selection_set@[k].0 as int);
                 }
             },
             Selection::InlineFragment(f) => {
-                assert forall|k: int| 0 <= k < f.selection_set@.len() && i < (f.selection_set@[k].0 as int) < q.selections@.len() implies #[trigger] tree_used(q, s, t2, f2, f.selection_set@[k].0 as int) by {
+                assert forall|k: int| 0 <= k < f.selection_set@.len() && i < ((#[trigger] f.selection_set@[k]).0 as int) < q.selections@.len() implies tree_used(q, s, t2, f2, f.selection_set@[k].0 as int) by {
                     assert(tree_used(q, s, t1, f1, f.selection_set@[k].0 as int));
                     lemma_tree_used_mono(q, s, t1, f1, t2, f2, f.selection_set@[k].0 as int);
                 }
